@@ -131,7 +131,7 @@ def updater_lifecycle(tier, rnd):
             for i in range(1, len(y)):
                 pref.add(json.dumps(y[:i]))
         maximal = [json.loads(x) for x in ser if x not in pref]
-        n = 12 if tier == "quick" else 400
+        n = 20 if tier == "quick" else 400
         pick = maximal if len(maximal) <= n else rnd.sample(maximal, n)
         build_harness(["replay_updater"])
         d = workdir("replay_updater")
